@@ -951,8 +951,32 @@ class _Spellings(ast.NodeTransformer):
         return node
 
 
+class _Suppress(ast.NodeTransformer):
+    """with contextlib.suppress(E1, E2): BODY   ->   try: BODY  except (E1, E2): pass      (single context item, no `as`)"""
+    def visit_With(self, node):
+        self.generic_visit(node)
+        if len(node.items) == 1 and node.items[0].optional_vars is None:
+            ce = node.items[0].context_expr
+            if isinstance(ce, ast.Call) and not ce.keywords and ce.args and not any(isinstance(a, ast.Starred) for a in ce.args) and (
+                    (isinstance(ce.func, ast.Attribute) and ce.func.attr == "suppress" and isinstance(ce.func.value, ast.Name) and ce.func.value.id == "contextlib")
+                    or (isinstance(ce.func, ast.Name) and ce.func.id == "suppress")):
+                typ = ce.args[0] if len(ce.args) == 1 else ast.Tuple(elts=list(ce.args), ctx=ast.Load())
+                h = ast.ExceptHandler(type=typ, name=None, body=[ast.Pass()])
+                new = ast.Try(body=node.body, handlers=[h], orelse=[], finalbody=[])
+                for x in ast.walk(new):
+                    if not hasattr(x, "lineno"):
+                        ast.copy_location(x, node)
+                    if hasattr(node, "_module") and not hasattr(x, "_module"):
+                        x._module = node._module
+                ast.copy_location(new, node)
+                return new
+        return node
+
+
 def canonical_spellings(prog) -> None:
     for m in prog.modules.values():
+        if any(isinstance(n, ast.With) for n in ast.walk(m.tree)) and "suppress" in m.src:
+            m.tree = _Suppress().visit(m.tree)
         shadowed = any(isinstance(n, (ast.FunctionDef, ast.ClassDef)) and n.name in ("dict", "list", "tuple") for n in ast.walk(m.tree)) or any(
             isinstance(n, ast.Name) and n.id in ("dict", "list", "tuple") and isinstance(n.ctx, ast.Store) for n in ast.walk(m.tree))
         if not shadowed:
